@@ -134,7 +134,7 @@ impl TheoreticalIsotopicPattern {
         let n = self.len();
         let mut peaks = PeakList::with_capacity(n);
         for (i, peak) in self.peaks.iter().enumerate() {
-            if i == n {
+            if i + 1 == n {
                 break;
             }
             peaks.push(*peak);
